@@ -537,3 +537,24 @@ class SyncedCollection(Collection):
     def __str__(self):
         self._load()
         return str(self._data)
+
+
+def _detach_synced(data):
+    """Replace the synced collections inside ``data`` by their plain content.
+
+    An in-place merge (``reset``, ``update``) must not read its argument from
+    collections that the merge itself is modifying, e.g.
+    ``d.update(a=d["b"], b=d["a"])``. Containers that hold no synced collection
+    are returned as they are.
+    """
+    if isinstance(data, SyncedCollection):
+        return data()
+    if isinstance(data, dict):
+        new = {key: _detach_synced(value) for key, value in data.items()}
+        if any(new[key] is not data[key] for key in data):
+            return new
+    elif isinstance(data, (list, tuple)):
+        new = [_detach_synced(value) for value in data]
+        if any(a is not b for a, b in zip(new, data)):
+            return new
+    return data
